@@ -12,3 +12,4 @@ import Corerad.Props.C15
 import Corerad.Props.C16
 import Corerad.Props.C18
 import Corerad.Props.C19
+import Corerad.Props.C20
